@@ -1,15 +1,16 @@
 (* C06 — watch mode converges: the last change always ends up built.
    Property theorems only; proofs are in Proofs/SysWatch.v, Proofs/AF_watch.v, Proofs/WatchKF1.v, Proofs/AF_lastword*.v,
-   Proofs/SysFifo.v, Proofs/SysWatchLive*.v.
+   Proofs/SysFifo.v, Proofs/SysWatchLive*.v, Proofs/PotentialW.v, Proofs/SysBoundW.v, Proofs/Weights.v.
    Safety half (what is proved for every graph, change sequence and interleaving): a change notice or an out-of-date word
    from a dependency re-arms the target and is passed on to every requester; a run that was invalidated in flight is never
    acknowledged; an acknowledged target is not waiting to run again; a target does not start while the latest word from a
    dependency is "out of date" (with C01). Convergence: the system-level invariant C06_latest_word_tracks_availability and
    the stuck-freedom theorem C06_quiescent_up_to_date (end of file) hold for every graph, change sequence and interleaving;
-   that a watch run does settle once changes stop (a bound on the rebuild cascade) is decided on the real binary (props/C06.py).
+   C06_rebuild_cascade_is_finite bounds the number of steps of EVERY run by a constant plus a constant per change notice, and
+   C06_settles gives the continuation that reaches quiescence: together, once changes stop the run settles, up to date.
    KNOWN FINDING KF1: a change of a target's own declared input made while its script runs is absorbed by a skip; witness
    below, replayed on the real binary (defect D12). *)
-From Zinoma.Proofs Require Import SysWatch WatchKF1 SysWatchLive2.
+From Zinoma.Proofs Require Import SysWatch WatchKF1 SysWatchLive2 Weights.
 From Zinoma.Model Require Import Incremental.
 
 Theorem C06_invalidation_rearms_and_propagates :
@@ -103,3 +104,43 @@ Example C06_quiescent_after_change :
     (quiescent true true s && is_running s && none_failedb s &&
      bool_decide (hist s = [ObStart 1%N; ObSucc 1%N; ObStart 2%N; ObSucc 2%N; ObStart 1%N; ObSucc 1%N; ObStart 2%N; ObSucc 2%N])) = true.
 Proof. apply witness_intro. vm_compute. reflexivity. Qed.
+
+(* THE REBUILD CASCADE IS FINITE (repaired handlers; watch mode and one-shot alike; every graph whose dependencies decrease a
+   rank, i.e. every acyclic graph; every interleaving; script failures, spawn errors, signals included). Every execution makes
+   at most  PhiW(initial state) + sum over its file-change notices of the weight of the notified targets  steps other than
+   signal deliveries and change notices (`internalW` counts them, `changes_cost` sums `winvG` over the notified targets).
+   The weights are built from the graph (Proofs/Weights.v): an out-of-date notice to R weighs as much as everything R may do
+   in response — its own notices to its dependents, its re-run, the acknowledgements that follow — by recursion towards the
+   dependents; the potential PhiW (Proofs/SysBoundW.v) adds what every actor may still send, the messages in flight, the
+   pending change notices, the root queue, the termination messages and the phase; every step strictly decreases it and a
+   change notice increases it by at most its cost.  Finitely many changes => finitely many steps. *)
+Theorem C06_rebuild_cascade_is_finite :
+  forall (g : graph) (roots : list tid) (w : bool) (rank : tid -> nat),
+    (forall t k deps d, g !! t = Some (k, deps) -> d ∈ deps -> (rank d < rank t)%nat) ->
+    forall (ls : list label) (s : sys),
+      run_labels true w (init_sys g roots) ls = Some s ->
+      (internalW ls + PhiW (wokG g rank) (winvG g rank) (sokG g rank) s
+       <= PhiW (wokG g rank) (winvG g rank) (sokG g rank) (init_sys g roots) + changes_cost (winvG g rank) ls)%nat.
+Proof. exact steps_bounded_by_changes. Qed.
+
+(* ONCE CHANGES STOP THE RUN SETTLES: from every reachable state a continuation without file changes, signals or failing
+   scripts reaches, within PhiW(s) steps, a state in which nothing can happen any more (and by the theorem above no
+   continuation without file changes is longer than PhiW(s)); by C06_quiescent_up_to_date every requested target is then up
+   to date unless a script failed. *)
+Theorem C06_settles :
+  forall (g : graph) (roots : list tid) (w : bool) (rank : tid -> nat),
+    (forall t k deps d, g !! t = Some (k, deps) -> d ∈ deps -> (rank d < rank t)%nat) ->
+    forall s, reachable true w g roots s ->
+    exists ls s', run_labels true w s ls = Some s' /\ quiescent true w s' = true /\
+                  (length ls <= PhiW (wokG g rank) (winvG g rank) (sokG g rank) s)%nat.
+Proof.
+  intros g roots w rank Hrank s Hr. exact (reach_quiescentW g roots w rank Hrank _ s Hr (le_n _)).
+Qed.
+
+(* the bound on a concrete project: `2: [1]` watched with rank = the id; the run of C06_quiescent_after_change makes 17
+   steps besides its one change notice, within the bound 27 + 12 *)
+Example C06_bound_concrete :
+  let g : graph := <[1%N := (ABuild, [])]> (<[2%N := (ABuild, [1%N])]> ∅) in
+  let rk : tid -> nat := N.to_nat in
+  PhiW (wokG g rk) (winvG g rk) (sokG g rk) (init_sys g [2%N]) = 27%nat /\ winvG g rk (ATarget 1%N) = 12%nat.
+Proof. vm_compute. split; reflexivity. Qed.
